@@ -151,6 +151,8 @@ package cmd
 //@   modifies ghost(nopen, 0), ghost(nlocked, 0)
 //@   ensures loud: result == nil ==> cbran(f) && cbret(f) == nil
 //@   ensures propagated: cbran(f) && cbret(f) != nil ==> result != nil
+//@   check flushed: result == nil && called("(*Writer).Flush") ==> callret("(*Writer).Flush", 0) == nil && called("(*File).Sync") && callret("(*File).Sync", 0) == nil
+//@                 && called("(*File).Close") && callret("(*File).Close", 0) == nil
 
 // ---------------------------------------------------------------- reading files (C16, C13, C08..C11)
 
@@ -170,6 +172,7 @@ package cmd
 
 //@ func getFileDataFromRemote
 //@   props C15 C12 C16
+//@   check[C12] empty_is_notexist: called(convertRemoteErrNotExist) ==> ispathne(result2)
 //@   ensures ok: result2 == nil ==> listOK(result0, result1) && allNonNil(result1) && allShaped(result1) && fresh(result0)
 //@   ensures failed: result2 != nil ==> result0 == nil && len(result1) == 0
 //@ loop getFileDataFromRemote#0
@@ -300,6 +303,7 @@ package cmd
 
 //@ func getRawFileDataFromRemote
 //@   props C15 C12 C16
+//@   check[C12] empty_is_notexist: called(convertRemoteErrNotExist) ==> ispathne(result2)
 //@   ensures ok: result2 == nil ==> rawListOK(result0, result1) && fresh(result0)
 //@   ensures failed: result2 != nil ==> result0 == nil && len(result1) == 0
 //@ loop getRawFileDataFromRemote#0
@@ -426,8 +430,14 @@ package cmd
 // NOTE: when the Sync after Create fails the new handle is dropped without Close (descriptor and lock stay until the
 // process exits). Not claimed as a C13 violation: C13 speaks of Open/Create, the CLI exits right after, and the path is
 // not reachable on the real code (the page-buffer dependency never reports write errors, see depcontracts/).
+//@ func convertRemoteErrNotExist
+//@   props C12 C09
+//@   requires resp != nil
+//@   ensures ne: ispathne(result)
+
 //@ func openOrCreateCopyDestFile
 //@   props C08 C11 C16
+//@   check[C08] created_synced: result1 == nil && called(Create) ==> called("(*Whisper).Sync") && callret("(*Whisper).Sync", 0) == nil
 //@   requires srcHeader != nil
 //@   modifies srcHeader.archiveInfoList[0:len(srcHeader.archiveInfoList)], ghost(nopen, 0), ghost(nlocked, 0)
 //@   ensures ok: result1 == nil ==> result0 != nil && fresh(result0) && handleLive(result0) && fresh(result0.file) && fresh(result0.fileBuf)
